@@ -766,12 +766,12 @@ func ruleC06Release(w *World, r *Report) {
 	// who may release: only the places where a session ends. The address belongs to the session (it is
 	// keyed by the SEID), not to a PDR: releasing it while the session lives hands it to another session.
 	relSites := map[string]string{
-		"pfcpiface.(*PFCPConn).handleSessionEstablishmentRequest$":  "abort of a session that was not accepted",
-		"pfcpiface.(*PFCPConn).handleSessionDeletionRequest":        "session deletion",
-		"pfcpiface.(*PFCPConn).handleSessionReportResponse":         "session dropped after 'context not found'",
-		"pfcpiface.(*PFCPConn).shutdownConn":                        "association teardown",
-		"pfcpiface.(*PFCPConn).Shutdown":                            "association teardown",
-		"pfcpiface.releaseAllocatedIPs":                             "the release helper itself",
+		"pfcpiface.(*PFCPConn).handleSessionEstablishmentRequest$": "abort of a session that was not accepted",
+		"pfcpiface.(*PFCPConn).handleSessionDeletionRequest":       "session deletion",
+		"pfcpiface.(*PFCPConn).handleSessionReportResponse":        "session dropped after 'context not found'",
+		"pfcpiface.(*PFCPConn).shutdownConn":                       "association teardown",
+		"pfcpiface.(*PFCPConn).Shutdown":                           "association teardown",
+		"pfcpiface.releaseAllocatedIPs":                            "the release helper itself",
 	}
 	nSites := 0
 	for _, callee := range []*ssa.Function{dealloc0(w, P), rel} {
@@ -821,7 +821,6 @@ func ruleC06Release(w *World, r *Report) {
 	}
 	r.floor("R06.6 DeallocIP call in releaseAllocatedIPs", n, 1)
 }
-
 
 func dealloc0(w *World, prop string) *ssa.Function {
 	return w.Fn(prop, "pfcpiface.(*IPPool).DeallocIP")
